@@ -475,6 +475,12 @@ impl CoreInner {
 		//   Thread B (flush):  holds manifest.write, waits imm.write
 		// By acquiring manifest.read first, we ensure no circular wait.
 		let table_id = self.level_manifest.read()?.next_table_id();
+		// Tripwire: only reachable when the active-memtable lock is NOT held here, i.e. when
+		// the rotated memtable is momentarily in neither the active slot nor the immutable list.
+		#[cfg(feature = "verif")]
+		if self.active_memtable.try_read().is_ok() {
+			crate::verif::yield_sync("rotate.pre_register");
+		}
 		let mut immutable_memtables = self.immutable_memtables.write()?;
 		immutable_memtables.add(table_id, flushed_wal_number, Arc::clone(&flushed_memtable));
 
